@@ -37,8 +37,7 @@ macro "b_destruct" h:ident : tactic => `(tactic|
   obtain ⟨b1,b2,b3,b4,b5,b6,b7,b8,b9,b10,b11⟩ := $h)
 
 /-- the awaiter-side helpers do not touch what `InvB` talks about, except `aw` -/
-theorem b_finish (s : State) (h : InvB s) (hl : s.main = .returned .ok → s.aw = .loop → 0 < s.toWait) :
-    InvB (finish s) := by
+theorem b_finish (s : State) (h : InvB s) : InvB (finish s) := by
   b_destruct h
   unfold finish
   split
@@ -50,5 +49,203 @@ theorem b_checkAll (s : State) (h : InvB s) : InvB (checkAll s) := by
   unfold checkAll
   repeat' split
   all_goals b_tac
+
+
+theorem b_afterErr (s : State) (chk : Bool) (h : InvB { s with aw := .loop }) : InvB (afterErr s chk) := by
+  unfold afterErr
+  apply b_finish
+  split
+  · exact b_checkAll _ h
+  · exact h
+
+theorem b_handleRes (s : State) (w : Wrap) (r : Ret) (done chk : Bool) (h : InvB s) (hl : s.aw = .loop)
+    (hv : r.isCtxError done = false → ∃ e, r = .err e ∧ e ∈ s.compErrs) : InvB (handleRes s w r done chk) := by
+  unfold handleRes
+  split
+  · apply b_afterErr
+    have e : { s with aw := AwPc.loop } = s := by cases s; simp_all
+    rw [e]; exact h
+  · rename_i hc
+    have hv' := hv (by simpa using hc)
+    b_destruct h; b_tac
+
+macro "a_destruct" h:ident : tactic => `(tactic|
+  obtain ⟨⟨h1,h2,h3,h4,h5,h6,h7,h8,h9,h10,h12,h13,h14,h15,h16,h17,h18,h19,h20,h21⟩, h11, h22⟩ := $h)
+
+section
+variable (cfg : Cfg) (s : State)
+
+theorem b_ext (ha : InvA s) (h : InvB s) : InvB (step cfg s .extCancel) := by
+  simp only [step]; b_destruct h; b_tac
+
+theorem b_warm (o) (ha : InvA s) (h : InvB s) : InvB (step cfg s (.warm o)) := by
+  simp only [step]
+  split
+  · b_destruct h; a_destruct ha; cases o <;> b_tac
+  · exact h
+
+theorem b_sched (o) (ha : InvA s) (h : InvB s) : InvB (step cfg s (.sched o)) := by
+  simp only [step]
+  split
+  · b_destruct h; a_destruct ha; cases o <;> b_tac
+  · exact h
+
+theorem b_provRet (r) (ha : InvA s) (h : InvB s) : InvB (step cfg s (.provRet r)) := by
+  simp only [step]
+  split
+  · b_destruct h; cases r <;> b_tac
+  · exact h
+
+theorem b_aggRet (r) (ha : InvA s) (h : InvB s) : InvB (step cfg s (.aggRet r)) := by
+  simp only [step]
+  split
+  · b_destruct h; cases r <;> b_tac
+  · exact h
+
+theorem b_rps (ha : InvA s) (h : InvB s) : InvB (step cfg s .rpsFinished) := by
+  simp only [step]
+  split
+  · b_destruct h; b_tac
+  · exact h
+
+theorem b_startFirst (o) (ha : InvA s) (h : InvB s) : InvB (step cfg s (.startFirst o)) := by
+  simp only [step]
+  split
+  · b_destruct h; a_destruct ha; cases o <;> b_tac
+  · exact h
+
+theorem b_startTick (ha : InvA s) (h : InvB s) : InvB (step cfg s .startTick) := by
+  simp only [step]
+  split
+  · b_destruct h; b_tac
+  · exact h
+
+theorem b_startEnd (ha : InvA s) (h : InvB s) : InvB (step cfg s .startEnd) := by
+  simp only [step]
+  split
+  · b_destruct h; a_destruct ha; b_tac
+  · exact h
+
+theorem b_instCreate (i o) (ha : InvA s) (h : InvB s) : InvB (step cfg s (.instCreate i o)) := by
+  simp only [step]
+  split
+  · b_destruct h; cases o <;> b_tac
+  · exact h
+
+theorem b_instRet (i r) (ha : InvA s) (h : InvB s) : InvB (step cfg s (.instRet i r)) := by
+  simp only [step]
+  split
+  · split
+    · exact h
+    · b_destruct h; cases r <;> b_tac
+  · exact h
+
+theorem b_awaitProv (ha : InvA s) (h : InvB s) : InvB (step cfg s .awaitProv) := by
+  simp only [step]
+  split
+  · rename_i r _ hp
+    apply b_handleRes
+    · b_destruct h; b_tac
+    · assumption
+    · have := h.provVal r hp; cases r <;> simp_all [ValOK, Ret.isCtxError]
+  · exact h
+
+theorem b_awaitAgg (ha : InvA s) (h : InvB s) : InvB (step cfg s .awaitAgg) := by
+  simp only [step]
+  split
+  · rename_i r _ hp
+    apply b_handleRes
+    · b_destruct h; b_tac
+    · assumption
+    · have := h.aggVal r hp; cases r <;> simp_all [ValOK, Ret.isCtxError]
+  · exact h
+
+theorem b_awaitStart (ha : InvA s) (h : InvB s) : InvB (step cfg s .awaitStart) := by
+  simp only [step]
+  split
+  · rename_i n r _ _ hp
+    apply b_handleRes
+    · b_destruct h; b_tac
+    · assumption
+    · have := h.startVal n r hp; cases r <;> simp_all [ValOK, Ret.isCtxError]
+  · exact h
+
+theorem b_awaitRun (ha : InvA s) (h : InvB s) : InvB (step cfg s .awaitRun) := by
+  simp only [step]
+  split
+  · rename_i id r rest hl _ hb
+    split
+    · apply b_afterErr
+      b_destruct h; split <;> b_tac
+    · apply b_handleRes
+      · b_destruct h; b_tac
+      · assumption
+      · have := h.bufVal (id, r) (by rw [hb]; exact List.mem_cons_self)
+        cases r <;> simp_all [ValOK, Ret.isCtxError]
+  · exact h
+
+theorem b_errDeliver (ha : InvA s) (h : InvB s) : InvB (step cfg s .errDeliver) := by
+  simp only [step]
+  split
+  · rename_i w r chk _ _
+    apply b_afterErr
+    b_destruct h; b_tac
+  · exact h
+
+theorem b_errSuppress (ha : InvA s) (h : InvB s) : InvB (step cfg s .errSuppress) := by
+  simp only [step]
+  split
+  · rename_i w r chk _
+    have key : InvB (afterErr s chk) := by
+      apply b_afterErr
+      b_destruct h; b_tac
+    repeat' split
+    all_goals first | exact h | exact key
+  · exact h
+
+theorem b_mainCancel (ha : InvA s) (h : InvB s) : InvB (step cfg s .mainCancel) := by
+  simp only [step]
+  split
+  · b_destruct h; b_tac
+  · exact h
+
+theorem b_mainClosed (ha : InvA s) (h : InvB s) : InvB (step cfg s .mainClosed) := by
+  simp only [step]
+  split
+  · b_destruct h; a_destruct ha; b_tac
+  · exact h
+
+end
+
+theorem step_invB (cfg : Cfg) (s : State) (c : Choice) (ha : InvA s) (h : InvB s) : InvB (step cfg s c) := by
+  cases c
+  · exact b_ext cfg s ha h
+  · exact b_warm cfg s _ ha h
+  · exact b_sched cfg s _ ha h
+  · exact b_provRet cfg s _ ha h
+  · exact b_aggRet cfg s _ ha h
+  · exact b_rps cfg s ha h
+  · exact b_startFirst cfg s _ ha h
+  · exact b_startTick cfg s ha h
+  · exact b_startEnd cfg s ha h
+  · exact b_instCreate cfg s _ _ ha h
+  · exact b_instRet cfg s _ _ ha h
+  · exact b_awaitProv cfg s ha h
+  · exact b_awaitAgg cfg s ha h
+  · exact b_awaitStart cfg s ha h
+  · exact b_awaitRun cfg s ha h
+  · exact b_errDeliver cfg s ha h
+  · exact b_errSuppress cfg s ha h
+  · exact b_mainCancel cfg s ha h
+  · exact b_mainClosed cfg s ha h
+
+theorem foldl_invAB (cfg : Cfg) (cs : List Choice) (s : State) (ha : InvA s) (h : InvB s) :
+    InvA (cs.foldl (step cfg) s) ∧ InvB (cs.foldl (step cfg) s) := by
+  induction cs generalizing s with
+  | nil => exact ⟨ha, h⟩
+  | cons c cs ih => exact ih _ (step_invA cfg s c ha) (step_invB cfg s c ha h)
+
+theorem run_invB (cfg : Cfg) (cs : List Choice) : InvB (run cfg cs) :=
+  (foldl_invAB cfg cs _ invA_init invB_init).2
 
 end Pandora.Proofs.C05
